@@ -515,6 +515,8 @@ def run(ctx):
     check_object_histories(ctx, cuqi, rng, 40 * S)
     from harness.props.c18_shapes import check_shapes
     check_shapes(ctx, cuqi, rng)
+    from harness.props.c18_round8 import check_round8
+    check_round8(ctx, cuqi, rng)
 
 
 # ----------------------------------------------------------------------------------------------- A. time stepping
